@@ -331,6 +331,8 @@ class Built:
             return (o for o in list(objs_))
         if kind == 'iter':
             return iter(list(objs_))
+        if kind == 'single' and len(objs_) == 1:
+            return objs_[0]                 # the object itself, not a collection
         return list(objs_)
 
     def pform_value(self, v):
